@@ -63,6 +63,8 @@ type SimNode struct {
 	// Gate is called (outside the node lock) at the start of every query with
 	// the method name; the scheduler parks handler/worker goroutines there.
 	Gate func(method string)
+	// Work is called once per query (work budget of client calls)
+	Work func()
 	// FailAt, when > 0, makes the FailAt-th gated query (counted by Calls)
 	// return ErrInjected; Sticky keeps failing until cleared.
 	FailAt int
@@ -255,6 +257,9 @@ func (n *SimNode) OnBestChain(h wire.Hash) (uint64, bool) {
 // ---- database.Db subset ----
 
 func (n *SimNode) enter(method string) error {
+	if n.Work != nil {
+		n.Work()
+	}
 	if n.Gate != nil {
 		n.Gate(method)
 	}
@@ -461,3 +466,27 @@ func (n *SimNode) CheckScriptHashUsed(scriptHash []byte) (bool, error) {
 
 // equalBytes is used by the conformance self-test.
 func equalBytes(a, b []byte) bool { return bytes.Equal(a, b) }
+
+// ---- queries only the API layer makes (through the chain object); the
+// simulated node keeps no staking ranks or old-style binding index ----
+
+func (n *SimNode) FetchUnexpiredStakingRank(height uint64, onlyOnList bool) ([]database.Rank, error) {
+	if err := n.enter("FetchUnexpiredStakingRank"); err != nil {
+		return nil, err
+	}
+	return nil, nil
+}
+
+func (n *SimNode) FetchStakingRank(height uint64, onlyOnList bool) ([]database.Rank, error) {
+	if err := n.enter("FetchStakingRank"); err != nil {
+		return nil, err
+	}
+	return nil, nil
+}
+
+func (n *SimNode) FetchOldBinding(scriptHash []byte) ([]*database.BindingTxReply, error) {
+	if err := n.enter("FetchOldBinding"); err != nil {
+		return nil, err
+	}
+	return nil, nil
+}
